@@ -1,7 +1,8 @@
 import DcVerif.Model.Window
-/-! Helper lemmas for C07: list facts about `lastN` and buffer windows, the representation invariant `Inv`
+/-! Helper lemmas for C07: list facts about `lastN`, buffer windows and `memmove`, the representation invariant `Inv`
 shared by all storages, and its preservation by the two building blocks of every `push`
-(append at `tail` / move the window to the front). -/
+(append at `tail` / move the window to the front), which together form the canonical next state `next`.
+Nothing here mentions a generated definition; what the generated functions do under `Inv` is `Props/C07Gen.lean`. -/
 namespace Lemmas.Window
 open Spec.Window Model.Window
 
@@ -53,17 +54,14 @@ theorem window_drop1 (buf : List α) (h len : Nat) :
     ((buf.drop h).take len).drop 1 = (buf.drop (h+1)).take (len - 1) := by
   rw [List.drop_take]; simp [List.drop_drop]
 
-/-- after `copyFront buf s len`, the first `len` cells hold the old window `[s, s+len)` -/
-theorem copyFront_take (buf : List α) (s len : Nat) (h : s + len ≤ buf.length) :
-    (copyFront buf s len).take len = (buf.drop s).take len := by
-  unfold copyFront
-  have hl : ((buf.drop s).take len).length = len := by simp; omega
-  simp only
+/-- after `memmove buf s 0 n`, the first `n` cells hold the old window `[s, s+n)` -/
+theorem memmove_take (buf : List α) (s n : Nat) (h : s + n ≤ buf.length) :
+    (memmove buf s 0 n).take n = (buf.drop s).take n := by
+  unfold memmove
+  have hc : s + n ≤ buf.length ∧ 0 + n ≤ buf.length := by omega
+  have hl : ((buf.drop s).take n).length = n := by simp; omega
+  simp only [hc, and_self, if_true, List.take_zero, List.nil_append]
   rw [List.take_append_of_le_length (by omega), List.take_of_length_le (by omega)]
-
-theorem copyFront_length (buf : List α) (s len : Nat) (h : s + len ≤ buf.length) :
-    (copyFront buf s len).length = buf.length := by
-  unfold copyFront; simp; omega
 
 /-! ## the representation invariant -/
 
@@ -78,6 +76,10 @@ structure Inv (n c : Nat) (w : St α) (xs : List α) : Prop where
   hd     : w.head + min xs.length n = w.tail
   short  : xs.length < n → w.tail = xs.length
   vw     : (w.buf.drop w.head).take (w.tail - w.head) = lastN n xs
+
+/-- the state every constructor builds -/
+def init (size cap : Nat) (d : α) : St α :=
+  { buf := List.replicate cap d, size := size, cap := cap, head := 0, tail := 0 }
 
 theorem inv_init (n c : Nat) (d : α) (h : n < c) (hs : 0 < n) :
     Inv n c (init n c d) ([] : List α) := by
@@ -108,14 +110,13 @@ theorem inv_append {n c : Nat} (w : St α) (xs : List α) (v : α) (h : Inv n c 
 
 /-- move the last `n` values to the front -/
 theorem inv_rewind {n c : Nat} (w : St α) (xs : List α) (h : Inv n c w xs) (hfull : n ≤ xs.length) :
-    Inv n c { w with buf := copyFront w.buf (w.tail - n) n, head := 0, tail := n } xs := by
+    Inv n c { w with buf := memmove w.buf (w.tail - n) 0 n, head := 0, tail := n } xs := by
   obtain ⟨hsz, hcp, h1, h2, h3, h4, h5, h6, h7⟩ := h
   have hmin : min xs.length n = n := by omega
   have hhd : w.head = w.tail - n := by omega
   have hts : w.tail - w.head = n := by omega
   constructor <;> (try simp) <;> (try omega)
-  · rw [copyFront_length _ _ _ (by omega)]; exact h1
-  · rw [copyFront_take _ _ _ (by omega), ← h7, hhd]; congr 1; omega
+  rw [memmove_take _ _ _ (by omega), ← h7, hhd]; congr 1; omega
 
 /-- under the invariant the window is filled exactly when `n` values were pushed -/
 theorem inv_full_of_tail_cap {n c : Nat} {w : St α} {xs : List α} (h : Inv n c w xs) (ht : c ≤ w.tail) :
@@ -130,7 +131,7 @@ def appended (n : Nat) (w : St α) (xs : List α) (v : α) : St α :=
 
 /-- canonical effect of a rewind: the last `n` values move to the front -/
 def rewound (n : Nat) (w : St α) : St α :=
-  { w with buf := copyFront w.buf (w.tail - n) n, head := 0, tail := n }
+  { w with buf := memmove w.buf (w.tail - n) 0 n, head := 0, tail := n }
 
 /-- canonical effect of `push` -/
 def next (n c : Nat) (w : St α) (xs : List α) (v : α) : St α :=
@@ -147,127 +148,7 @@ theorem next_inv {n c : Nat} (w : St α) (xs : List α) (v : α) (h : Inv n c w 
     have hr := inv_rewind w xs h hfull
     exact inv_append _ xs v hr (by have := h.capgt; simp; omega) _ rfl
 
-theorem pushArr_eq {n c : Nat} (w : St α) (xs : List α) (v : α) (h : Inv n c w xs) :
-    pushArr w v = .ok (next n c w xs v) := by
-  have ⟨hsz, hcp, h1, h2, h3, h4, h5, h6, h7⟩ := h
-  unfold pushArr next
-  by_cases hroom : w.tail < c
-  · have hn : ¬ w.tail ≥ w.cap := by omega
-    have hb : ¬ w.tail ≥ w.buf.length := by omega
-    simp only [hn, if_false, hroom, if_true, storeArr, hb, appended]
-    congr 2
-    by_cases hlt : xs.length < n
-    · have := h6 hlt; simp [hlt]; omega
-    · simp [hlt]; split <;> omega
-  · have hn : w.tail ≥ w.cap := by omega
-    have hfull := inv_full_of_tail_cap h (by omega)
-    have hb : ¬ w.tail > w.buf.length := by omega
-    have e : w.tail - (w.tail - n) = n := by omega
-    simp only [hn, if_true, hroom, if_false, rewindArr, hb, e, hsz, storeArr, rewound, appended]
-    have hb2 : ¬ n ≥ (copyFront w.buf (w.tail - n) n).length := by
-      rw [copyFront_length _ _ _ (by omega)]; omega
-    simp only [hb2, if_false]
-    congr 2
-    have : ¬ xs.length < n := by omega
-    simp [this]
-
-theorem pushUArr_eq {n c : Nat} (w : St α) (xs : List α) (v : α) (h : Inv n c w xs) :
-    pushUArr w v = .ok (next n c w xs v) := by
-  have ⟨hsz, hcp, h1, h2, h3, h4, h5, h6, h7⟩ := h
-  unfold pushUArr next
-  by_cases hroom : w.tail < c
-  · have hn : ¬ w.tail ≥ w.cap := by omega
-    have hb : ¬ w.tail ≥ w.buf.length := by omega
-    have hu : ¬ w.tail + 1 < w.head := by omega
-    simp only [hn, if_false, hroom, if_true, storeUArr, hb, hu, appended, hsz]
-    by_cases hlt : xs.length < n
-    · have := h6 hlt
-      have hc : ¬ w.tail + 1 - w.head > n := by omega
-      simp only [hc, if_false, hlt, if_true]
-    · have hc : w.tail + 1 - w.head > n := by omega
-      have hd : ¬ w.tail + 1 < n := by omega
-      simp only [hc, if_true, hd, if_false, hlt]
-      congr 2; omega
-  · have hn : w.tail ≥ w.cap := by omega
-    have hfull := inv_full_of_tail_cap h (by omega)
-    have hb : ¬ w.tail > w.buf.length := by omega
-    have hp : ¬ w.tail < n := by omega
-    simp only [hn, if_true, hroom, if_false, rewindUArr, hsz, hp, hb, storeUArr, rewound, appended]
-    have hb2 : ¬ n ≥ (copyFront w.buf (w.tail - n) n).length := by
-      rw [copyFront_length _ _ _ (by omega)]; omega
-    have hu : ¬ n + 1 < 0 := by omega
-    have hc : n + 1 - 0 > n := by omega
-    have hd : ¬ n + 1 < n := by omega
-    have hx : ¬ xs.length < n := by omega
-    simp only [hb2, if_false, hu, hc, if_true, hd, hx]
-    congr 2; omega
-
-theorem pushVecFixed_eq {n c : Nat} (w : St α) (xs : List α) (v : α) (h : Inv n c w xs) :
-    pushVecFixed w v = .ok (next n c w xs v) := by
-  have ⟨hsz, hcp, h1, h2, h3, h4, h5, h6, h7⟩ := h
-  unfold pushVecFixed next
-  by_cases hroom : w.tail < c
-  · have hn : w.tail < w.cap := by omega
-    have hb : ¬ w.tail ≥ w.buf.length := by omega
-    have hu : ¬ w.tail + 1 < w.head := by omega
-    simp only [hn, if_true, hroom, hb, if_false, hu, appended, hsz]
-    congr 2
-    by_cases hlt : xs.length < n
-    · have := h6 hlt; simp [hlt]; omega
-    · simp [hlt]; omega
-  · have hn : ¬ w.tail < w.cap := by omega
-    have hfull := inv_full_of_tail_cap h (by omega)
-    have hhd : w.head = w.tail - n := by omega
-    have hb : ¬ w.head + n > w.buf.length := by omega
-    have hb2 : ¬ n ≥ (copyFront w.buf w.head n).length := by
-      rw [copyFront_length _ _ _ (by omega)]; omega
-    have hx : ¬ xs.length < n := by omega
-    simp only [hn, if_false, hroom, hsz, hb, hb2, rewound, appended, hx]
-    rw [hhd]
-    congr 2
-    simp
-
-theorem pushUVec_eq {n c : Nat} (w : St α) (xs : List α) (v : α) (h : Inv n c w xs) (h2n : 2 * n ≤ c) :
-    pushUVec w v = .ok (next n c w xs v) := by
-  have ⟨hsz, hcp, h1, h2, h3, h4, h5, h6, h7⟩ := h
-  unfold pushUVec next
-  by_cases hroom : w.tail < c
-  · have hn : w.tail < w.cap := by omega
-    have hb : ¬ w.tail ≥ w.buf.length := by omega
-    have hu : ¬ w.tail + 1 < w.head := by omega
-    simp only [hn, if_true, hroom, hb, if_false, hu, appended, hsz]
-    congr 2
-    by_cases hlt : xs.length < n
-    · have := h6 hlt; simp [hlt]; omega
-    · simp [hlt]; omega
-  · have hn : ¬ w.tail < w.cap := by omega
-    have hfull := inv_full_of_tail_cap h (by omega)
-    have hhd : w.head = w.tail - n := by omega
-    have hb : ¬ w.head + n > w.buf.length := by omega
-    have ho : ¬ (0 < n ∧ w.head < n) := by omega
-    have hb2 : ¬ n ≥ (copyFront w.buf w.head n).length := by
-      rw [copyFront_length _ _ _ (by omega)]; omega
-    have hx : ¬ xs.length < n := by omega
-    simp only [hn, if_false, hroom, hsz, hb, ho, hb2, rewound, appended, hx]
-    rw [hhd]
-    congr 2
-    simp
-
-/-- today's safe vector storage agrees with the others as long as its fast path is taken -/
-theorem pushVec_eq_room {n c : Nat} (w : St α) (xs : List α) (v : α) (h : Inv n c w xs) (hroom : w.tail < c) :
-    pushVec w v = .ok (next n c w xs v) := by
-  have ⟨hsz, hcp, h1, h2, h3, h4, h5, h6, h7⟩ := h
-  unfold pushVec next
-  have hn : w.tail < w.cap := by omega
-  have hb : ¬ w.tail ≥ w.buf.length := by omega
-  have hu : ¬ w.tail + 1 < w.head := by omega
-  simp only [hn, if_true, hroom, hb, if_false, hu, appended, hsz]
-  congr 2
-  by_cases hlt : xs.length < n
-  · have := h6 hlt; simp [hlt]; omega
-  · simp [hlt]; omega
-
-/-! ## what the accessors return under the invariant -/
+/-! ## windows of a buffer -/
 theorem window_head? (buf : List α) (h k : Nat) (hk : 0 < k) :
     ((buf.drop h).take k).head? = buf[h]? := by
   rw [List.head?_take]; simp; omega
@@ -290,14 +171,13 @@ theorem lastN_getLast? (n : Nat) (xs : List α) (hn : 0 < n) : (lastN n xs).getL
   · have : ¬ xs.length ≤ xs.length - n := by omega
     simp [this]
 
+
+/-! ## what a represented state holds where the accessors look -/
 section
 variable {n c : Nat} {w : St α} {xs : List α}
 
-theorem inv_size (h : Inv n c w xs) : size w = n := h.sz
-
-theorem inv_empty (h : Inv n c w xs) : Model.Window.empty w = Spec.Window.empty xs := by
+theorem inv_tail_zero (h : Inv n c w xs) : w.tail = 0 ↔ xs = [] := by
   obtain ⟨hsz, hcp, h1, h2, h3, h4, h5, h6, h7⟩ := h
-  unfold Model.Window.empty Spec.Window.empty
   cases xs with
   | nil => have := h6 (by simpa using h3); simp at this; simp [this]
   | cons x xs =>
@@ -313,116 +193,22 @@ theorem inv_tail_ge (h : Inv n c w xs) : (w.tail ≥ n) ↔ n ≤ xs.length := b
   · intro ht; apply Classical.byContradiction; intro hn; have := h6 (by omega); omega
   · intro hx; omega
 
-theorem inv_filled (k : Kind) (h : Inv n c w xs) : Model.Window.filled k w = Spec.Window.filled n xs := by
-  have ht := inv_tail_ge h
-  obtain ⟨hsz, hcp, h1, h2, h3, h4, h5, h6, h7⟩ := h
-  unfold Model.Window.filled Spec.Window.filled
-  cases k <;> simp only [hsz, decide_eq_decide] <;> omega
-
-theorem inv_filledForLast (k : Kind) (h : Inv n c w xs) :
-    filledForLast k w = .ok (Spec.Window.filled n xs) := by
-  have hf := inv_filled k h
-  have hfa := inv_filled .arr h
-  obtain ⟨hsz, hcp, h1, h2, h3, h4, h5, h6, h7⟩ := h
-  unfold filledForLast
-  cases k <;> simp only [hf]
-  have : ¬ w.tail < w.head := by omega
-  simp only [this, if_false]
-  unfold Model.Window.filled at hfa
-  simp only at hfa
-  rw [hfa]
-
-theorem inv_index_head (k : Kind) (h : Inv n c w xs) (hne : xs ≠ []) :
-    index k w.buf w.head = ofSpec (Spec.Window.first n xs) := by
+/-- the cell at `head` is the oldest retained value -/
+theorem inv_head (h : Inv n c w xs) (hne : xs ≠ []) : w.buf[w.head]? = (lastN n xs).head? ∧ w.head < w.buf.length := by
   obtain ⟨hsz, hcp, h1, h2, h3, h4, h5, h6, h7⟩ := h
   have hpos : 0 < xs.length := List.length_pos_iff.mpr hne
   have hk : 0 < w.tail - w.head := by omega
-  unfold index Spec.Window.first
   rw [← h7, window_head? _ _ _ hk]
-  have : w.head < w.buf.length := by omega
-  rw [List.getElem?_eq_getElem this]
-  rfl
+  exact ⟨rfl, by omega⟩
 
-theorem inv_first (k : Kind) (h : Inv n c w xs) : first k w = ofSpec (Spec.Window.first n xs) := by
-  unfold Model.Window.first
-  have he := inv_empty h
-  unfold Model.Window.empty Spec.Window.empty at he
-  by_cases hx : xs = []
-  · subst hx
-    have : w.tail = 0 := by simpa using he
-    simp [this, Spec.Window.first, lastN, ofSpec]
-  · have : w.tail ≠ 0 := by
-      intro h0; rw [h0] at he; simp at he; exact hx he
-    simp only [this, if_false]
-    exact inv_index_head k h hx
-
-theorem inv_last (k : Kind) (h : Inv n c w xs) : last k w = ofSpec (Spec.Window.last n xs) := by
-  unfold Model.Window.last
-  rw [inv_filledForLast k h]
-  have ht := inv_tail_ge h
+/-- the cell before `tail` is the most recent value -/
+theorem inv_newest (h : Inv n c w xs) (hf : n ≤ xs.length) :
+    w.buf[w.tail - 1]? = xs.getLast? ∧ w.tail - 1 < w.buf.length ∧ 0 < w.tail := by
   obtain ⟨hsz, hcp, h1, h2, h3, h4, h5, h6, h7⟩ := h
-  unfold Spec.Window.filled Spec.Window.last
-  by_cases hf : n ≤ xs.length
-  · have ht0 : w.tail ≠ 0 := by omega
-    simp only [ht0, if_false, hf, if_true]
-    unfold index
-    rw [← lastN_getLast? n xs h3, ← h7, window_getLast? _ _ _ (by omega) (by omega)]
-    have e : w.head + (w.tail - w.head) - 1 = w.tail - 1 := by omega
-    rw [e]
-    have : w.tail - 1 < w.buf.length := by omega
-    rw [List.getElem?_eq_getElem this]
-    rfl
-  · simp only [hf, if_false]
-    rfl
-
-theorem inv_getSlice (k : Kind) (h : Inv n c w xs) : getSlice k w = .ok (lastN n xs) := by
-  obtain ⟨hsz, hcp, h1, h2, h3, h4, h5, h6, h7⟩ := h
-  unfold getSlice
-  have hg : ¬ (w.head > w.tail ∨ w.tail > w.buf.length) := by omega
-  cases k <;> simp only [hg, if_false, h7]
-  -- the unsafe array clamps the length to `size`
-  have e : min (w.tail - w.head) w.size = w.tail - w.head := by omega
-  have hb : ¬ w.head + (w.tail - w.head) > w.buf.length := by omega
-  simp only [e, hb, if_false, h7]
-
-theorem inv_slice (k : Kind) (h : Inv n c w xs) : slice k w = ofSpec (Spec.Window.view n xs) := by
-  unfold slice Spec.Window.view
-  rw [inv_filled k h, inv_getSlice k h]
-  unfold Spec.Window.filled
-  by_cases hf : n ≤ xs.length <;> simp [hf, ofSpec]
-
-theorem inv_vec (k : Kind) (h : Inv n c w xs) : vec k w = ofSpec (Spec.Window.view n xs) := inv_slice k h
-
-/-- `arr::<s>()` for any width `s`: too narrow panics, wider pads with the default value -/
-theorem inv_arr_width (k : Kind) (h : Inv n c w xs) (s : Nat) (d : α) :
-    arr k w s d = if n ≤ xs.length then (if s < n then .panic else .ok (lastN n xs ++ List.replicate (s - n) d))
-                  else .err := by
-  unfold arr
-  rw [inv_filled k h, inv_getSlice k h]
-  unfold Spec.Window.filled
-  have hsz := h.sz
-  by_cases hf : n ≤ xs.length
-  · have hl : (lastN n xs).length = n := by rw [lastN_length]; omega
-    simp only [hf, decide_true, if_true, hsz, hl]
-    by_cases hs : s < n
-    · have : n > s := hs
-      simp [this]
-    · have h1 : ¬ n > s := by omega
-      have h2 : ¬ n > n := by omega
-      simp only [h1, h2, if_false]
-      rw [List.take_of_length_le (by omega)]
-  · simp [hf]
-
-theorem inv_arr (k : Kind) (h : Inv n c w xs) (d : α) : arr k w w.size d = ofSpec (Spec.Window.view n xs) := by
-  rw [inv_arr_width k h, h.sz]
-  unfold Spec.Window.view
-  by_cases hf : n ≤ xs.length <;> simp [hf, ofSpec]
-
-theorem inv_observe (k : Kind) (h : Inv n c w xs) (d : α) :
-    observe k w d = Obs.ofSpec (Spec.Window.observe n xs) := by
-  unfold Model.Window.observe Obs.ofSpec Spec.Window.observe
-  simp only [inv_size h, inv_empty h, inv_filled k h, inv_first k h, inv_last k h, inv_slice k h, inv_vec k h,
-    inv_arr k h d]
+  rw [← lastN_getLast? n xs h3, ← h7, window_getLast? _ _ _ (by omega) (by omega)]
+  have e : w.head + (w.tail - w.head) - 1 = w.tail - 1 := by omega
+  rw [e]
+  exact ⟨rfl, by omega, by omega⟩
 end
 
 end Lemmas.Window
